@@ -6,12 +6,14 @@ Model: Model/CodonTables.lean (getCodonFrequency as the rune loop, OptimizeTable
 GetCodonTable / OptimizeTable / AddCodonTable / CompromiseCodonTable / JSON round trip on histories).
 Spec:  Spec/ValueTables.lean (countCodons by chunking, the same operations on immutable values, Linear).
 
-KNOWN FINDING C08-alias-default.  The full statement of the property,
+KNOWN FINDINGS C08-alias-default and C08-receiver-mutated (one mechanism — OptimizeTable writes the new
+weights in place through slices that struct copies share — seen on a package-level default table, resp. on
+a table built by add / compromise / json).  The full statement of the property,
 
     history_refines_FULL (unproved, REFUTED) :  ∀ hist, runHeap cmp defs hist = runValue addTable cmp defs hist
 
 is FALSE of the model (and of the code: the model agrees with the code on every history, linear or not,
-in the correspondence check); it is REFUTED by `alias_witness` below.  What is proved is
+in the correspondence check); it is REFUTED by `alias_witness` and `receiver_witness` below.  What is proved is
 `history_refines`, the same statement under `Linear defs hist`, which excludes exactly the class of the
 finding (reading a table through a handle whose cell was re-weighted through another handle, or
 requesting a default table again after a handle to it was re-weighted).
@@ -62,6 +64,11 @@ theorem history_refines {κ : Type} (cmp : Table → Table → κ → Outcome Ta
     runHeap cmp defs hist = runValue addTable cmp defs hist :=
   inv_run cmp hist _ _ _ (inv_init defs) ha hl
 
+/-- the regenerated default tables carry uniform weight 1 (re-decided on every run against what
+`GetCodonTable` returns in a fresh process; their assignment is tied to the NCBI codes by Props/C06) -/
+theorem defaults_uniform :
+    genDefaults.all (fun p => p.2.aminoAcids.all fun a => a.codons.all fun c => c.weight == 1) = true := by decide
+
 /-- consequence: on a Linear history a freshly requested default table is the pristine one -/
 theorem linear_get_pristine {κ : Type} (cmp : Table → Table → κ → Outcome Table) (defs : List (Nat × Table))
     (hist : List (Op κ)) (id : Nat) (t : Table) (ht : defs.lookup id = some t)
@@ -89,6 +96,47 @@ theorem alias_witness_nonlinear : Linear genDefaults h₀ = false := by decide
 /-- second class: reading through a stale handle -/
 def h₁ : List (Op Unit) := [Op.get 1, Op.reweight 0 "ATG".toList, Op.observe 0]
 theorem stale_witness : ¬ (runHeap noCmp genDefaults h₁ = runValue addTable noCmp genDefaults h₁) ∧ Linear genDefaults h₁ = false := by decide
+
+/-- The second finding, kernel-checked: a table detached from every default table (JSON round trip) is
+re-weighted; the handle it was re-weighted through shows the new weights although value semantics leaves
+the receiver unchanged.  No default table is involved: the last step shows table 1 pristine in both semantics. -/
+def h₂ : List (Op Unit) := [Op.get 1, Op.json 0, Op.reweight 1 "ATG".toList, Op.observe 1, Op.get 1]
+
+theorem receiver_witness : ¬ (runHeap noCmp genDefaults h₂ = runValue addTable noCmp genDefaults h₂) ∧
+    Linear genDefaults h₂ = false := by decide
+
+/-- which finding a break belongs to is decided by the region it exposes: a default table for `h₀`, `h₁`,
+a built table for `h₂` (`genDefaults.length = 25`) -/
+theorem witness_regions : breaks genDefaults h₀ = [8] ∧ breaks genDefaults h₁ = [0] ∧ breaks genDefaults h₂ = [25] ∧
+    genDefaults.length = 25 := by decide
+
+/-- `breaks` lists nothing exactly on the Linear histories -/
+theorem breaksFrom_nil_iff {κ : Type} (defs : List (Nat × Table)) (hist : List (Op κ)) :
+    ∀ st, breaksFrom defs st hist = [] ↔ linearFrom defs st hist = true := by
+  induction hist with
+  | nil => intro st; simp [breaksFrom, linearFrom]
+  | cons op rest ih =>
+    intro st
+    simp only [breaksFrom, linearFrom, lforce]
+    cases h : lstep defs st op with
+    | some st' => simp only []; exact ih st'
+    | none =>
+      cases op with
+      | get id =>
+        simp only [lstep] at h
+        cases hi : indexOfId defs id with
+        | none => simp [hi] at h
+        | some r => simp [hi]
+      | reweight k s =>
+        simp only [lstep] at h
+        split at h <;> cases h
+      | add h1 h2 => simp
+      | compromise h1 h2 c => simp
+      | json k => simp
+      | observe k => simp
+
+theorem linear_iff_no_breaks {κ : Type} (defs : List (Nat × Table)) (hist : List (Op κ)) :
+    breaks defs hist = [] ↔ Linear defs hist = true := breaksFrom_nil_iff defs hist _
 
 /-- Linear is not vacuous and is weaker than "never touch a re-weighted handle again": re-weighting through a
 stale handle, then reading the newest result, adding, serialising is Linear -/
